@@ -40,12 +40,12 @@ Proof. intros H. induction 1 as [|a b l l' Hab _ IH]; cbn [map]; [reflexivity|].
 
 (* annotations of one attribute set *)
 Theorem meta_order_independent o a keys p zs at_ at_' :
-  a_tags at_ = a_tags at_' -> NoDup (a_annos at_) -> Permutation (a_annos at_) (a_annos at_') ->
+  a_tags at_ = a_tags at_' -> a_srcs at_ = a_srcs at_' ->
+  NoDup (map an_name (a_annos at_)) -> Permutation (a_annos at_) (a_annos at_') ->
   meta o a keys p zs at_ = meta o a keys p zs at_'.
 Proof.
-  intros Ht Hnd Hp. unfold meta, sort_names. rewrite Ht.
-  rewrite (sorted_by_perm_eq (fun n => n) (a_annos at_) (a_annos at_')); [reflexivity| |exact Hp].
-  rewrite map_id. exact Hnd.
+  intros Ht Hs Hnd Hp. unfold meta. rewrite Ht, Hs.
+  rewrite (sorted_by_perm_eq an_name (a_annos at_) (a_annos at_') Hnd Hp). reflexivity.
 Qed.
 
 (* two readings of the same Go maps *)
@@ -56,7 +56,7 @@ Inductive tdef_equiv : tdef -> tdef -> Prop :=
 Definition type_equiv (t t':typedecl) : Prop :=
   t_name t = t_name t' /\ t_doc t = t_doc t' /\ t_opt t = t_opt t' /\ t_attrs t = t_attrs t' /\ tdef_equiv (t_def t) (t_def t').
 Definition app_equiv (ap ap':app) : Prop :=
-  ap_name ap = ap_name ap' /\ ap_long ap = ap_long ap' /\ ap_doc ap = ap_doc ap' /\ ap_attrs ap = ap_attrs ap' /\
+  ap_name ap = ap_name ap' /\ ap_sname ap = ap_sname ap' /\ ap_long ap = ap_long ap' /\ ap_doc ap = ap_doc ap' /\ ap_attrs ap = ap_attrs ap' /\
   ap_mixins ap = ap_mixins ap' /\
   (NoDup (map e_name (ap_eps ap)) /\ Permutation (ap_eps ap) (ap_eps ap')) /\
   (NoDup (map t_name (ap_types ap)) /\ exists l, Permutation (ap_types ap) l /\ Forall2 type_equiv l (ap_types ap')) /\
@@ -70,10 +70,10 @@ Proof.
     rewrite (sorted_by_perm_eq f_name fs fs' Hnd Hp); reflexivity.
 Qed.
 
-Lemma app_rows_equiv cm am ap ap' : app_equiv ap ap' -> app_rows cm am ap = app_rows cm am ap'.
+Lemma app_rows_equiv cm am g ap ap' : app_equiv ap ap' -> app_rows cm am g ap = app_rows cm am g ap'.
 Proof.
-  intros (Hn & Hl & Hd & Ha & Hm & (Hne & He) & (Hnt & l & Hp & Hf) & (Hnv & Hv)). unfold app_rows.
-  rewrite Hn, Hl, Hd, Ha, Hm.
+  intros (Hn & Hsn & Hl & Hd & Ha & Hm & (Hne & He) & (Hnt & l & Hp & Hf) & (Hnv & Hv)). unfold app_rows.
+  rewrite Hn, Hsn, Hl, Hd, Ha, Hm.
   rewrite (sorted_by_perm_eq e_name _ _ Hne He), (sorted_by_perm_eq v_name _ _ Hnv Hv), (sorted_by_perm_eq t_name _ _ Hnt Hp).
   assert (E : map (type_rows (ap_name ap')) (sorted_by t_name l) = map (type_rows (ap_name ap')) (sorted_by t_name (ap_types ap'))).
   { eapply map_Forall2_eq; [intros x y Hxy; apply type_rows_equiv, Hxy|].
@@ -81,34 +81,35 @@ Proof.
   rewrite E. reflexivity.
 Qed.
 
-Lemma module_bad_equiv m m' : Forall2 app_equiv m m' -> module_bad m = module_bad m'.
+Lemma module_fault_equiv g m m' : Forall2 app_equiv m m' -> module_fault g m = module_fault g m'.
 Proof.
-  unfold module_bad. induction 1 as [|ap ap' m m' Hap _ IH]; [reflexivity|]. cbn [existsb]. rewrite IH. f_equal.
-  destruct Hap as (_ & _ & _ & _ & _ & (_ & He) & _). apply existsb_perm, He.
+  unfold module_fault. intros H. f_equal. eapply map_Forall2_eq; [|exact H]. intros ap ap' Hap.
+  destruct Hap as (_ & _ & _ & _ & _ & _ & (Hne & He) & _). unfold app_fault.
+  rewrite (sorted_by_perm_eq e_name _ _ Hne He). reflexivity.
 Qed.
 
-Theorem normalize_order_independent cm am m m' :
-  Forall2 app_equiv m m' -> normalize cm am m = normalize cm am m'.
+Theorem normalize_order_independent cm am g m m' :
+  Forall2 app_equiv m m' -> normalize cm am g m = normalize cm am g m'.
 Proof.
-  intros H. unfold normalize. rewrite <- (module_bad_equiv _ _ H). destruct (module_bad m); [reflexivity|].
+  intros H. unfold normalize. rewrite <- (module_fault_equiv _ _ _ H). destruct (module_fault g m) as [[|]|]; try reflexivity.
   f_equal. f_equal. eapply map_Forall2_eq; [|exact H]. intros x y Hxy. apply app_rows_equiv, Hxy.
 Qed.
 
 (* non-vacuity: two different iteration orders of one application *)
-Definition ex_attrs : attrs := {| a_tags := [7%positive]; a_annos := [] |}.
+Definition ex_attrs : attrs := {| a_tags := [7%positive]; a_annos := []; a_srcs := [] |}.
 Definition ex_f1 : field := {| f_name := 20%positive; f_ty := MPrim 30%positive; f_opt := false; f_constraints := []; f_attrs := ex_attrs |}.
 Definition ex_f2 : field := {| f_name := 21%positive; f_ty := MPrim 31%positive; f_opt := true; f_constraints := []; f_attrs := ex_attrs |}.
 Definition ex_t (fs:list field) : typedecl := {| t_name := 10%positive; t_doc := 9%positive; t_opt := false; t_def := DTuple fs; t_attrs := ex_attrs |}.
 Definition ex_t2 : typedecl := {| t_name := 11%positive; t_doc := 9%positive; t_opt := false; t_def := DEnum [(40%positive, 1%Z)]; t_attrs := ex_attrs |}.
 Definition ex_app (ts:list typedecl) : app :=
-  {| ap_name := [8%positive]; ap_long := 9%positive; ap_doc := 9%positive; ap_attrs := ex_attrs; ap_mixins := []; ap_eps := [];
+  {| ap_name := [8%positive]; ap_sname := [[65%N]]; ap_long := 9%positive; ap_doc := 9%positive; ap_attrs := ex_attrs; ap_mixins := []; ap_eps := [];
      ap_types := ts; ap_views := [] |}.
 Example order_independent_nonvacuous :
   Forall2 app_equiv [ex_app [ex_t [ex_f1; ex_f2]; ex_t2]] [ex_app [ex_t2; ex_t [ex_f2; ex_f1]]] /\
   [ex_app [ex_t [ex_f1; ex_f2]; ex_t2]] <> [ex_app [ex_t2; ex_t [ex_f2; ex_f1]]].
 Proof.
   split; [|discriminate].
-  constructor; [|constructor]. unfold app_equiv. cbn [ex_app ap_name ap_long ap_doc ap_attrs ap_mixins ap_eps ap_types ap_views map].
+  constructor; [|constructor]. unfold app_equiv. cbn [ex_app ap_name ap_sname ap_long ap_doc ap_attrs ap_mixins ap_eps ap_types ap_views map].
   repeat split; try reflexivity; try apply Permutation_refl; try constructor.
   - intros [H|[]]; discriminate.
   - constructor; [intros []|constructor].
